@@ -479,6 +479,9 @@ func accessMatrix(yield func(Case) bool) {
 var shapes = []cval{
 	{"[[1]]", "[[1]]"}, {"[[1,2]]", "[[1, 2]]"}, {"[[1,2,3]]", "[[1, 2, 3]]"}, {"[1,[2,3]]", "[1, [2, 3]]"}, {"[[1,2],3]", "[[1, 2], 3]"}, {"[[1,2],[3]]", "[[1, 2], [3]]"},
 	{"[1,2]", "[1, 2]"}, {"[null,null]", "[null, null]"}, {`{"a":[1,2]}`, `{"a" : [1, 2]}`}, {"{1:2}", "{1 : 2}"}, {"[[],[]]", "[[], []]"}, {`["ab","cd"]`, `["ab", "cd"]`},
+	// strings which mean something to a regular expression, a format string, an interpolation or a path
+	{"str-open-bracket", `"(a"`}, {"str-open-class", `"[a"`}, {"str-star", `"*a"`}, {"str-format-verbs", `"%d%s%!"`}, {"str-backslash", `"a\\"`}, {"str-braces", `r"{{"`},
+	{"str-dots", `"../.."`}, {"str-newline", `"a\nb"`},
 }
 
 func directedSets(yield func(Case) bool) {
@@ -503,6 +506,10 @@ func directedSets(yield func(Case) bool) {
 			{"list-elem", "[v, [v], {\"a\" : v}]"}, {"in-list", "v in [v]"}, {"notin-list", "v notin [[v]]"}, {"eq-self", "v == v"}, {"neq-self", "[v] != [v]"},
 			{"return", "func f() {\n    return v\n}\nf()"}, {"default-param", "func f(a=v) {\n    return a\n}\nf()"}, {"param", "func f(a, b) {\n    return a\n}\nf(v)\nf(v, v, v)"}, {"default-fails", "func f(a=v[5], b=zz.y) {\n    return a\n}\nf(1)\nf()"},
 			{"interpolate", "\"x{{v}}y\""}, {"raise-data", "raise(v, v, v)"}, {"raise-in-func", "func f() {\n    raise(v)\n}\nf()"},
+			{"except-type", "try {\n    raise(\"N\")\n} except \"{{v}}\" {\n    a := 1\n} except e {\n    b := 1\n}"},
+			{"except-type-second", "try {\n    a := 1 + \"x\"\n} except \"A\", \"{{v}}\" {\n    a := 1\n} except {\n    b := 1\n}"},
+			{"except-type-only", "try {\n    raise(\"N\")\n} except \"{{v}}\" {\n    a := 1\n}"},
+			{"like-pattern", "\"abc\" like v"}, {"like-subject", "v like \"a\""}, {"hasprefix", "v hasPrefix v"}, {"raise-type-caught-by-name", "try {\n    raise(v)\n} except \"{{v}}\" {\n    a := 1\n}"},
 			{"import-path", "import \"{{v}}\" as x"}, {"mutex", "mutex m {\n    a := v + 1\n}"}, {"mutex-reenter", "mutex m {\n    mutex m {\n        a := v[5]\n    }\n}"},
 			{"method-this", "o := new({\"x\" : v, \"get\" : func() {\n    return this.x[5]\n}})\no.get()"},
 			{"super-call", "o := new({\"super\" : [{\"init\" : func(a) {\n    this.q := a[5]\n}}], \"init\" : func(a) {\n    super[0](a)\n    super[5](a)\n}}, v)"},
